@@ -475,7 +475,7 @@ def run(tier, t0):
     for p in runner.parallel("vf.props.c17", "pty_dialogue_part", [(sh, 4 if tier == "quick" else 32, runner.SEED) for sh in range(runner.NPROC)]):
         part.merge(p)
     from ..fuzz import driver
-    fuzz_note = driver.campaign(part, "cli", runs=80000 if tier == "quick" else 2000000)
+    fuzz_note = driver.campaign(part, "cli", runs=80000 if tier == "quick" else 1000000)
     rule = ("command lines: 0/1/several of -2 -3 -4, -j/-a/-n (short or long), vector (valid for the selected version, valid "
             "for another version, 1-3-edit mutant, arbitrary text without NUL/surrogates; '-v X', '--vector X' or '--vector=X') "
             "or interactive entry with a C16 answer script (complete or truncated = premature EOF); shuffled flag order. A "
